@@ -67,7 +67,7 @@ func ctorRule(w *World, r *Report, rule string) {
 	want := map[string][]string{
 		modPath + "/types.MalFunc": {"Eval", "GenEnv", "Env"},
 		modPath + "/types.Func":    {"Fn"},
-		modPath + "/env.Env":       {"data", "mu"},
+		modPath + "/env.Env":       {w.roles().envData, w.roles().envMu},
 	}
 	n := 0
 	for _, pkg := range w.Pkgs {
@@ -295,7 +295,7 @@ func checkC05(w *World, r *Report) {
 	// the environment's map is not an error value but a fatal "concurrent map read and map write"
 	scannerErrorRule(w, r, "C05.scanner-errors")
 	r.rule("C05.env-lock", "every access to Env.data reachable by the reader holds that environment's lock (shared with C11.data): the lock-free *NT methods are only called with the lock held")
-	guardRule(w, r, e, "C05.env-lock", guardTable[2])
+	guardRule(w, r, e, "C05.env-lock", w.guardRows()[2])
 	r.floor("C05.env-lock", "accesses to Env.data and calls of lock-required methods", r.count("C05.env-lock"), 10)
 	a := newAudit(w, e, r, "C05.site")
 	a.exempt = exemptionsC05
@@ -352,7 +352,6 @@ func checkC05(w *World, r *Report) {
 		"regexp, strconv and strings functions do not panic on arbitrary strings",
 		"stack exhaustion on pathologically deep nesting is outside the claim")
 }
-
 
 // doPrecondRule: the body helper slices its list from index `from`; every call site must have established
 // that the list has at least `from` elements (this is what the exemption of the slice inside the helper
